@@ -1,10 +1,10 @@
 package main
 
 import (
-	"os"
 	"fmt"
 	"go/token"
 	"go/types"
+	"os"
 	"sort"
 	"strings"
 
@@ -384,11 +384,12 @@ func c18CreditTarget(c *Ctx, pkg string) {
 // The peer applies every "dynamic table size update" the moment it decodes it, evicting down to the announced size. The
 // encoder announces the minimum size it was set to since the last header block and then the final size; it stays in step
 // with the peer only if its own table was really shrunk to each size it was set to, at the time it was set. Clauses:
-//  (a) wherever dynamicTable.maxSize is written, evict() follows on every path
-//      (size <= maxSize is an invariant of the table, never re-established lazily);
-//  (b) every growth of dynamicTable.size is followed by evict() on every path;
-//  (c) a function that lowers Encoder.minSize to v, or raises the tableSizeUpdate flag, also applies setMaxSize to the
-//      table on that path - what will be announced has been applied.
+//
+//	(a) wherever dynamicTable.maxSize is written, evict() follows on every path
+//	    (size <= maxSize is an invariant of the table, never re-established lazily);
+//	(b) every growth of dynamicTable.size is followed by evict() on every path;
+//	(c) a function that lowers Encoder.minSize to v, or raises the tableSizeUpdate flag, also applies setMaxSize to the
+//	    table on that path - what will be announced has been applied.
 func c18HpackTable(c *Ctx) {
 	pkg := "pkg/module/http2/hpack"
 	isEvict := func(in ssa.Instruction) bool {
